@@ -133,7 +133,18 @@ class C13(Prop):
         if not killed and not crashy:
             leaks = [w for w in res.run.warnings if "leaked" in w[2]]
             if leaks:
-                out.append(V(pid, "C13/leak-reported-for-released-objects/%s" % spec["ending"], repr(leaks[:2])))
+                import re as _re
+                trackers = {p.pid for p in k.procs.values() if p.role == "tracker"}
+                swept = [x[1] for x in k.log if x[0] == "sem_unlink" and x[2] in trackers]
+                swept += [m.group(1) for w in res.run.warnings
+                          for m in [_re.match(r"resource_tracker: (\S+): FileNotFoundError", w[2])] if m]
+                cut = []
+                for name in swept:
+                    own = [x for x in k.log if x[0] == "sem_unlink" and x[1] == name and x[2] == creators.get(name)]
+                    if own and own[0][3] >= 0 and res.sched.tasks[own[0][3]].killed:
+                        cut.append(name)
+                why = "daemon-thread-cut-at-exit" if swept and len(cut) == len(swept) else spec["ending"]
+                out.append(V(pid, "C13/leak-reported-for-released-objects/%s" % why, "%r; swept by the tracker: %r" % (leaks[:2], swept[:4])))
         return out
 
     def features(self, res):
